@@ -393,7 +393,7 @@ def run(check, tier):
     check.confirm(cands, make_replay, classify)
     from . import C12_warn
     wc = []
-    C12_warn.run(check, tier, wc)
-    check.confirm(wc, C12_warn.make_replay, C12_warn.classify, max_confirm=24, per_finding=2)
+    wgoods = C12_warn.run(check, tier, wc)
+    check.confirm(wc, C12_warn.make_replay, C12_warn.classify, max_confirm=24, per_finding=2, goods=wgoods or ())
     driver.close_pool()
     realproc.shutdown()
